@@ -40,7 +40,7 @@ CLAIMED['C08'] = (
     'DESIGN.md section 4 C08')
 
 _MM = ('MMTrace.tla (contract over MMDefs.tla) batch-validates traces recorded from the real searches (fresh objects, shared data '
-       'and shared eligibility objects, data objects used before, decoy interference, post-search perturbation of caller-owned objects; '
+       'and shared eligibility objects, data objects used before, reconfigured searchers (call-time fields re-assigned after use), earlier runs and returned sets the caller wrote over, decoy interference, post-search perturbation of caller-owned objects; '
        'panels with missing / NaN / negative / zero-total geos, other response units, long test periods); numeric facts from the independent oracle; '
        'design-level models MMImplX/MMImplG checked by TLC; hook events of both loops replayed against those models '
        '(MMStepTrace / MMStepTraceG, drift notes)')
